@@ -256,7 +256,8 @@ def dispatch(kind, which, coef, pv):
 @harness("C13", args="coef: int, exp: int, pv: int, sp: int", pre=["-30 <= coef <= 130", "-30 <= exp <= 30", "pv in " + repr(PL), f"-1 <= sp < {len(SPECIAL)}"],
          tiers={"quick": {"timeout": 170, "pre": ["coef % 10 == 7 or coef == 0 or coef == 100 or coef == -1", "exp % 5 == 0 or exp == 1 or exp == -1"],
                           "parts": [("small_" + t, "sp == -1 and " + c) for t, c in (("a", "pv < -9"), ("b", "-9 <= pv < 0"), ("c", "0 <= pv <= 3"), ("d", "pv > 3"))] + [("special", "sp >= 0 and coef == 0 and -3 <= exp <= 3")]},
-                "thorough": {"timeout": 1500, "parts": [("neg", "sp == -1 and coef < 0"), ("lo", "sp == -1 and 0 <= coef < 60"), ("hi", "sp == -1 and coef >= 60"), ("special", "sp >= 0 and coef == 0")]}},
+                "thorough": {"timeout": 600, "parts": [(f"{t}_p{str(pv).replace('-', 'm')}", f"sp == -1 and pv == {pv} and {c}") for pv in PL for t, c in (("neg", "coef < 0"), ("lo", "0 <= coef < 60"), ("hi", "coef >= 60"))]
+                                                  + [("special", "sp >= 0 and coef == 0")]}},
          sample=(0, 0, 0, 4),
          bounds="Prefixed(coef x 10^exp, prefix): coef in [-30,130], exp in [-30,30] (quick: a lattice), all 21 prefixes; plus mantissas at the int64 boundary (2^63-1, 2^63, -2^63, -2^63-1, 2^64), 1e30 and a 27-digit integer with exponents -3..3 (all exponents thorough): exact digits and prefix on an ideal resistor and on an external module",
          generalises="nothing beyond the box (decimal is C code)", outside="mantissas of arbitrary length")
